@@ -208,3 +208,12 @@ pub fn from_previous(prev_validated: bool, prev_sent: u64, prev_recvd: u64, prev
     core::mem::forget(prev);
     1
 }
+
+/// Accounts `pkt` as in flight on `p` (what `PacketBuilder::finish_and_track` does), for native replay bodies.
+pub fn in_flight_insert(p: &mut PathData, pkt: &SentPacket) {
+    p.in_flight.insert(pkt);
+}
+
+pub fn in_flight_bytes(p: &PathData) -> u64 {
+    p.in_flight.bytes
+}
